@@ -1,9 +1,16 @@
 /-
   C15 — the PKCS#11 layer finds the right key and hands the token the right octets.
-  (first instalment: mechanism/padding/environment theorems; lookup theorems follow below)
+  Part 1: mechanism / padding / environment theorems.
+  Part 2: sessions, lookup by label (healthy token `storeToken` of Lemmas/HsmStore.lean, and every
+  token where the statement allows), module order, attribute → key conversion, the one signing
+  operation.  Helper lemmas and the views `foundKey`, `ecDerive`, `refusedIn` are in
+  KskmProofs/Lemmas/Hsm.lean, each tied to the model by a proved equation.
 -/
 import Kskm.Hsm
 import KskmGen.Tables
+import KskmProofs.Lemmas.HsmStore
+import KskmProofs.Lemmas.Base64
+import KskmProofs.C14
 namespace Kskm.C15
 
 /-! ## Constants and the mechanism table are those of the code and of PKCS#11 -/
@@ -216,5 +223,789 @@ theorem env_during (e : Env) (h : List (String × String)) (k v : String)
 
 example : (emsaBlock 128 (digestInfoSha256 ++ List.replicate 32 0xab)).length = 128 := by decide
 example : mechanismFor true 8 = some 64 := by decide
+
+/-! # Part 2 -/
+
+/-! ## The `sessions` property: failed slots are dropped -/
+
+/-- **Failed slots are dropped, the others kept in order** — for EVERY token (any fault plan).
+    `l` is what was logged; `refusedIn m.path l sl` says the oracle answered `.error` to the
+    open-session or to the login on slot `sl`.  The resulting `sessions` are exactly the slots (in
+    order) that were not refused, `slots` lost exactly the refused ones, nothing else changes. -/
+theorem sessions_drop_failed (m : P11Module) (tok : Token) (slots : List Nat) (hnd : slots.Nodup) :
+    ∀ (acc : P11Module) (s : TokState), ∃ m' s' l,
+      openSessions m slots acc tok s = (.ok m', s') ∧ s'.log = l ++ s.log ∧
+      (∀ x, x ∉ slots → refusedIn m.path l x = false) ∧
+      m' = { acc with
+        sessions := acc.sessions ++ slots.filter (fun sl => !refusedIn m.path l sl),
+        slots := acc.slots.filter (fun sl => !refusedIn m.path l sl) } := by
+  induction slots with
+  | nil =>
+    intro acc s
+    refine ⟨acc, s, [], rfl, rfl, fun _ _ => rfl, ?_⟩
+    cases acc; simp only [refusedIn, List.any_nil, Bool.not_false, List.filter_nil, List.append_nil]
+    congr 1
+    exact (List.filter_eq_self.mpr (fun _ _ => rfl)).symm
+  | cons slot rest ih =>
+    intro acc s
+    have hnotin : slot ∉ rest := (List.nodup_cons.mp hnd).1
+    obtain ⟨l₁, hl1, hr1s, hr1x⟩ := openOne_log m slot tok s
+    rw [openSessions_cons_run]
+    obtain ⟨m', s', l₂, hrun, hl2, h2, hm'⟩ := ih (List.nodup_cons.mp hnd).2
+      (if (openOne m slot tok s).1 then keepSlot acc slot else dropSlot acc slot) (openOne m slot tok s).2
+    have hrs : refusedIn m.path (l₂ ++ l₁) slot = !(openOne m slot tok s).1 := by
+      rw [refusedIn_append, h2 slot hnotin, hr1s, Bool.false_or]
+    have hrx : ∀ x, x ≠ slot → refusedIn m.path (l₂ ++ l₁) x = refusedIn m.path l₂ x := by
+      intro x hx; rw [refusedIn_append, hr1x x hx, Bool.or_false]
+    have hfr : rest.filter (fun sl => !refusedIn m.path (l₂ ++ l₁) sl) =
+        rest.filter (fun sl => !refusedIn m.path l₂ sl) := by
+      apply List.filter_congr
+      intro x hx
+      rw [hrx x (fun h => hnotin (h ▸ hx))]
+    refine ⟨m', s', l₂ ++ l₁, hrun, by rw [hl2, hl1, List.append_assoc], ?_, ?_⟩
+    · intro x hx
+      have hx1 : x ≠ slot := fun h => hx (h ▸ List.mem_cons_self)
+      have hx2 : x ∉ rest := fun h => hx (List.mem_cons_of_mem _ h)
+      rw [hrx x hx1, h2 x hx2]
+    · rw [hm']
+      cases hk : (openOne m slot tok s).1
+      · -- dropped
+        rw [hk] at hrs
+        simp only [Bool.false_eq_true, ↓reduceIte, dropSlot, List.filter_cons, hrs, hfr,
+          List.filter_filter]
+        congr 1
+        apply List.filter_congr
+        intro x _
+        by_cases hx : x = slot
+        · subst hx; simp [hrs]
+        · rw [hrx x hx]; simp [hx]
+      · -- kept
+        rw [hk] at hrs
+        simp only [↓reduceIte, keepSlot, List.filter_cons, hrs, hfr, List.append_assoc,
+          List.singleton_append]
+        congr 1
+        apply List.filter_congr
+        intro x _
+        by_cases hx : x = slot
+        · subst hx; rw [hrs, h2 x hnotin]; rfl
+        · rw [hrx x hx]
+
+/-- the same on a healthy token, by `loginOk` (no distinctness hypothesis needed) -/
+theorem sessions_drop_failed_store (st : Store) (ok : String → Nat → Bool) (m : P11Module)
+    (slots : List Nat) : ∀ (acc : P11Module) (s : TokState), ∃ s',
+      openSessions m slots acc (storeToken st ok) s =
+        (.ok { acc with
+          sessions := acc.sessions ++ slots.filter (fun sl => ok m.path sl),
+          slots := acc.slots.filter (fun x => !(slots.contains x && !ok m.path x)) }, s') := by
+  induction slots with
+  | nil =>
+    intro acc s
+    refine ⟨s, ?_⟩
+    cases acc
+    simp only [openSessions, TokM.pure_run, List.filter_nil, List.append_nil, List.contains_nil,
+      Bool.false_and, Bool.not_false]
+    congr 3
+    exact (List.filter_eq_self.mpr (fun _ _ => rfl)).symm
+  | cons sl rest ih =>
+    intro acc s
+    rw [openSessions_cons_run]
+    have hone : (openOne m sl (storeToken st ok) s).1 = ok m.path sl := by
+      unfold openOne
+      simp only [storeToken_open, storeToken_login]
+      cases hok : ok m.path sl <;> simp
+      split <;> simp
+    rw [hone]
+    obtain ⟨s', hs'⟩ := ih (if ok m.path sl = true then keepSlot acc sl else dropSlot acc sl)
+      (openOne m sl (storeToken st ok) s).2
+    refine ⟨s', ?_⟩
+    rw [hs']
+    cases hok : ok m.path sl
+    · simp only [Bool.false_eq_true, ↓reduceIte, dropSlot, List.filter_cons, hok, List.filter_filter]
+      congr 3
+      apply List.filter_congr
+      intro x _
+      by_cases hx : x = sl
+      · subst hx; simp [hok]
+      · simp [hx]
+    · simp only [↓reduceIte, keepSlot, List.filter_cons, hok, List.append_assoc, List.singleton_append]
+      congr 3
+      apply List.filter_congr
+      intro x _
+      by_cases hx : x = sl
+      · subst hx; simp [hok]
+      · simp [hx]
+
+/-! ## Lookup by label on a healthy token (`storeToken`) -/
+
+/-- the log entries of querying the slots `pre`, all of which answered "no such object" (newest first) -/
+def emptyAnswers (m : P11Module) (label : String) (cls : Nat) (pre : List Nat) : List (TokOp × TokAns) :=
+  (pre.map fun sl => (findOp m label cls sl, TokAns.handles [])).reverse
+
+/-- the state after those queries -/
+def afterEmpty (m : P11Module) (label : String) (cls : Nat) (pre : List Nat) (s : TokState) : TokState :=
+  { count := s.count + pre.length, log := emptyAnswers m label cls pre ++ s.log }
+
+/-- slots without a matching object are passed over, one `findObjects` each -/
+theorem find_skip_empty (st : Store) (ok : String → Nat → Bool) (m : P11Module) (label : String)
+    (cls : Nat) (hh : Option Bool) (pre rest : List Nat)
+    (hpre : ∀ sl ∈ pre, matching st m label cls sl = []) (s : TokState) :
+    findInSlots m label cls hh (pre ++ rest) (storeToken st ok) s =
+      findInSlots m label cls hh rest (storeToken st ok) (afterEmpty m label cls pre s) := by
+  induction pre generalizing s with
+  | nil => simp [afterEmpty, emptyAnswers]
+  | cons sl pre ih =>
+    have h0 : matching st m label cls sl = [] := hpre sl List.mem_cons_self
+    rw [List.cons_append, findInSlots_cons_empty _ _ _ _ _ _ _ _ (by rw [storeToken_find, h0]; rfl),
+      ih (fun x hx => hpre x (List.mem_cons_of_mem _ hx))]
+    congr 1
+    simp [afterEmpty, emptyAnswers, TokState.push]
+    omega
+
+/-- **(a) No slot has a matching object ⇒ "not found"**, after exactly one query per slot. -/
+theorem find_none (st : Store) (ok : String → Nat → Bool) (m : P11Module) (label : String)
+    (cls : Nat) (hh : Option Bool) (slots : List Nat)
+    (hall : ∀ sl ∈ slots, matching st m label cls sl = []) (s : TokState) :
+    findInSlots m label cls hh slots (storeToken st ok) s =
+      (.ok none, afterEmpty m label cls slots s) := by
+  have := find_skip_empty st ok m label cls hh slots [] hall s
+  rw [List.append_nil] at this
+  rw [this]; rfl
+
+/-- **(b) The first slot that has any matching object has exactly one ⇒ the outcome is that of
+    reading this object** (`foundKey` on its handle): the `findObjects` queries issued are exactly
+    those for the slots up to and including `s₀`; what comes after `s₀` plays no role. -/
+theorem find_first (st : Store) (ok : String → Nat → Bool) (m : P11Module) (label : String)
+    (cls : Nat) (hh : Option Bool) (pre post : List Nat) (s₀ : Nat) (o : StoreObj)
+    (hpre : ∀ sl ∈ pre, matching st m label cls sl = [])
+    (hone : matching st m label cls s₀ = [o]) (s : TokState) :
+    findInSlots m label cls hh (pre ++ s₀ :: post) (storeToken st ok) s =
+      foundKey m label cls hh s₀ o.handle (storeToken st ok)
+        ((afterEmpty m label cls pre s).push (findOp m label cls s₀) (.handles [o.handle])) := by
+  rw [find_skip_empty st ok m label cls hh pre _ hpre s,
+    findInSlots_cons_one _ _ _ _ _ _ _ _ o.handle (by rw [storeToken_find, hone]; rfl)]
+
+/-- **(c) Two objects under one label in the first non-empty slot are an error**, whatever later
+    slots hold. -/
+theorem find_duplicate (st : Store) (ok : String → Nat → Bool) (m : P11Module) (label : String)
+    (cls : Nat) (hh : Option Bool) (pre post : List Nat) (s₀ : Nat) (o₁ o₂ : StoreObj) (os : List StoreObj)
+    (hpre : ∀ sl ∈ pre, matching st m label cls sl = [])
+    (htwo : matching st m label cls s₀ = o₁ :: o₂ :: os) (s : TokState) :
+    findInSlots m label cls hh (pre ++ s₀ :: post) (storeToken st ok) s =
+      (.error (.error .runtime),
+        (afterEmpty m label cls pre s).push (findOp m label cls s₀)
+          (.handles (o₁.handle :: o₂.handle :: os.map (·.handle)))) := by
+  rw [find_skip_empty st ok m label cls hh pre _ hpre s,
+    findInSlots_cons_many _ _ _ _ _ _ _ _ o₁.handle o₂.handle (os.map (·.handle))
+      (by rw [storeToken_find, htwo]; rfl)]
+
+/-- later slots are never queried: the outcome *and the operation log* are those of the search cut
+    off after `s₀` -/
+theorem find_first_ignores_later (st : Store) (ok : String → Nat → Bool) (m : P11Module)
+    (label : String) (cls : Nat) (hh : Option Bool) (pre post : List Nat) (s₀ : Nat)
+    (hpre : ∀ sl ∈ pre, matching st m label cls sl = [])
+    (hne : matching st m label cls s₀ ≠ []) (s : TokState) :
+    findInSlots m label cls hh (pre ++ s₀ :: post) (storeToken st ok) s =
+      findInSlots m label cls hh (pre ++ [s₀]) (storeToken st ok) s := by
+  cases hm : matching st m label cls s₀ with
+  | nil => exact absurd hm hne
+  | cons o₁ r =>
+    cases r with
+    | nil => rw [find_first st ok m label cls hh pre post s₀ o₁ hpre hm,
+        find_first st ok m label cls hh pre [] s₀ o₁ hpre hm]
+    | cons o₂ os => rw [find_duplicate st ok m label cls hh pre post s₀ o₁ o₂ os hpre hm,
+        find_duplicate st ok m label cls hh pre [] s₀ o₁ o₂ os hpre hm]
+
+/-- every list of slots either has no matching object anywhere, or has a first slot that has some -/
+theorem first_nonempty_slot (st : Store) (m : P11Module) (label : String) (cls : Nat) (slots : List Nat) :
+    (∀ sl ∈ slots, matching st m label cls sl = []) ∨
+    ∃ pre s₀ post, slots = pre ++ s₀ :: post ∧ (∀ sl ∈ pre, matching st m label cls sl = []) ∧
+      matching st m label cls s₀ ≠ [] := by
+  induction slots with
+  | nil => left; simp
+  | cons sl rest ih =>
+    by_cases h : matching st m label cls sl = []
+    · rcases ih with hall | ⟨pre, s₀, post, he, hp, hn⟩
+      · left; intro x hx
+        rcases List.mem_cons.mp hx with rfl | hx
+        · exact h
+        · exact hall x hx
+      · right
+        refine ⟨sl :: pre, s₀, post, by rw [he]; rfl, ?_, hn⟩
+        intro x hx
+        rcases List.mem_cons.mp hx with rfl | hx
+        · exact h
+        · exact hp x hx
+    · right; exact ⟨[], sl, rest, rfl, by simp, h⟩
+
+/-- **find_iff (found ⇒).** A key is returned only if, in the first slot (in session order) that
+    has any object of the class under the label, exactly one object carries it; the key returned
+    lives in that slot, its handle is that object's handle, and the operations issued are the
+    `findObjects` for the slots up to `s₀` followed only by attribute reads of that one object. -/
+theorem find_iff (st : Store) (ok : String → Nat → Bool) (m : P11Module) (label : String)
+    (cls : Nat) (hh : Option Bool) (slots : List Nat) (s s' : TokState) (key : P11Key)
+    (hr : findInSlots m label cls hh slots (storeToken st ok) s = (.ok (some key), s')) :
+    ∃ pre s₀ post o, slots = pre ++ s₀ :: post ∧
+      (∀ sl ∈ pre, matching st m label cls sl = []) ∧ matching st m label cls s₀ = [o] ∧
+      key.slot = s₀ ∧ key.module = m.path ∧ key.label = label ∧ key.keyClass = cls ∧
+      key.hashUsingHsm = hh ∧
+      key.privHandle = (if cls ≠ ckoPublic then some o.handle else none) ∧
+      key.pubHandle = (if cls ≠ ckoSecret then some o.handle else none) ∧
+      ∃ reads, s'.log = reads ++ (findOp m label cls s₀, .handles [o.handle]) ::
+          emptyAnswers m label cls pre ++ s.log ∧
+        ∀ e ∈ reads, IsGetAttrOf m.path s₀ o.handle e.1 := by
+  rcases first_nonempty_slot st m label cls slots with hall | ⟨pre, s₀, post, he, hp, hn⟩
+  · rw [find_none st ok m label cls hh slots hall s] at hr
+    simp at hr
+  · subst he
+    cases hm : matching st m label cls s₀ with
+    | nil => exact absurd hm hn
+    | cons o r =>
+      cases r with
+      | cons o₂ os =>
+        rw [find_duplicate st ok m label cls hh pre post s₀ o o₂ os hp hm] at hr
+        simp at hr
+      | nil =>
+        rw [find_first st ok m label cls hh pre post s₀ o hp hm] at hr
+        obtain ⟨t, pk, hk⟩ := foundKey_ok _ _ _ _ _ _ _ _ _ _ hr
+        obtain ⟨reads, hlog, _, hreads⟩ := (foundKey_emits m label cls hh s₀ o.handle).run hr
+        simp only [Option.some.injEq] at hk
+        subst hk
+        refine ⟨pre, s₀, post, o, rfl, hp, hm, rfl, rfl, rfl, rfl, rfl, rfl, rfl, reads, ?_, hreads⟩
+        rw [hlog]; simp [afterEmpty]
+
+/-- **find_iff (not found ⇔).** "Not found" is answered exactly when no session slot holds an
+    object of the class under the label. -/
+theorem find_none_iff (st : Store) (ok : String → Nat → Bool) (m : P11Module) (label : String)
+    (cls : Nat) (hh : Option Bool) (slots : List Nat) (s : TokState) :
+    (∃ s', findInSlots m label cls hh slots (storeToken st ok) s = (.ok none, s')) ↔
+      ∀ sl ∈ slots, matching st m label cls sl = [] := by
+  constructor
+  · rintro ⟨s', hr⟩
+    rcases first_nonempty_slot st m label cls slots with hall | ⟨pre, s₀, post, he, hp, hn⟩
+    · exact hall
+    · subst he
+      cases hm : matching st m label cls s₀ with
+      | nil => exact absurd hm hn
+      | cons o r =>
+        cases r with
+        | cons o₂ os =>
+          rw [find_duplicate st ok m label cls hh pre post s₀ o o₂ os hp hm] at hr
+          simp at hr
+        | nil =>
+          rw [find_first st ok m label cls hh pre post s₀ o hp hm] at hr
+          obtain ⟨t, pk, hk⟩ := foundKey_ok _ _ _ _ _ _ _ _ _ _ hr
+          simp at hk
+  · intro hall
+    exact ⟨_, find_none st ok m label cls hh slots hall s⟩
+
+/-- **two_objects_error (⇔ for the runtime error of the lookup itself is not claimed; ⇒ only).**
+    Corollary of (c) in the vocabulary of the property. -/
+theorem two_objects_error (st : Store) (ok : String → Nat → Bool) (m : P11Module) (label : String)
+    (cls : Nat) (hh : Option Bool) (pre post : List Nat) (s₀ : Nat)
+    (hpre : ∀ sl ∈ pre, matching st m label cls sl = [])
+    (htwo : 2 ≤ (matching st m label cls s₀).length) (s : TokState) :
+    ∃ s', findInSlots m label cls hh (pre ++ s₀ :: post) (storeToken st ok) s =
+      (.error (.error .runtime), s') := by
+  cases hm : matching st m label cls s₀ with
+  | nil => simp [hm] at htwo
+  | cons o r =>
+    cases r with
+    | nil => simp [hm] at htwo
+    | cons o₂ os => exact ⟨_, find_duplicate st ok m label cls hh pre post s₀ o o₂ os hpre hm s⟩
+
+/-! ## `get_p11_key`: modules in order, the first hit wins -/
+
+/-- any key returned by the per-module lookup lives in that module, in one of its session slots,
+    under the requested label and class (every token) -/
+theorem findInSlots_some (m : P11Module) (label : String) (cls : Nat) (hh : Option Bool) (tok : Token) :
+    ∀ (slots : List Nat) (s s' : TokState) (k : P11Key),
+      findInSlots m label cls hh slots tok s = (.ok (some k), s') →
+      k.module = m.path ∧ k.slot ∈ slots ∧ k.label = label ∧ k.keyClass = cls ∧ k.hashUsingHsm = hh := by
+  intro slots
+  induction slots with
+  | nil => intro s s' k h; simp [findInSlots] at h
+  | cons sl rest ih =>
+    intro s s' k h
+    rw [findInSlots_cons] at h
+    obtain ⟨r, s1, _, h⟩ := TokM.bind_ok _ _ _ _ _ _ h
+    split at h
+    · obtain ⟨h1, h2, h3⟩ := ih _ _ _ h
+      exact ⟨h1, List.mem_cons_of_mem _ h2, h3⟩
+    · obtain ⟨t, pk, hk⟩ := foundKey_ok _ _ _ _ _ _ _ _ _ _ h
+      simp only [Option.some.injEq] at hk
+      subst hk
+      exact ⟨rfl, List.mem_cons_self, rfl, rfl, rfl⟩
+    · simp at h
+    · simp at h
+
+/-- **Modules are consulted in order and a hit ends the search** (every token): if a key comes
+    back, the module list splits as `pre ++ m :: post` where the lookups in `pre` all answered
+    "not found", the key was found in `m`, the final state is the state right after `m`'s lookup —
+    so no operation at all is issued on the modules in `post` — and the result does not depend on
+    `post`. -/
+theorem getP11Key_first_module (label : String) (isPublic : Bool) (hh : Option Bool) (tok : Token) :
+    ∀ (mods : List P11Module) (s s' : TokState) (k : P11Key),
+      getP11Key label isPublic hh mods tok s = (.ok (some k), s') →
+      ∃ pre m post s₁, mods = pre ++ m :: post ∧
+        getP11Key label isPublic hh pre tok s = (.ok none, s₁) ∧
+        findInSlots m label (classOf isPublic) hh m.sessions tok s₁ = (.ok (some k), s') ∧
+        k.module = m.path ∧ k.slot ∈ m.sessions ∧
+        (∀ post', getP11Key label isPublic hh (pre ++ m :: post') tok s = (.ok (some k), s')) ∧
+        ∃ l, s'.log = l ++ s.log ∧ ∀ e ∈ l, IsReadAmong (pre ++ [m]) e.1 := by
+  intro mods
+  induction mods with
+  | nil => intro s s' k h; simp [getP11Key] at h
+  | cons m rest ih =>
+    intro s s' k h
+    cases hf : findInSlots m label (classOf isPublic) hh m.sessions tok s with
+    | mk r s1 =>
+      cases r with
+      | error e => rw [getP11Key_cons_error _ _ _ _ _ _ _ _ e hf] at h; simp at h
+      | ok o =>
+        cases o with
+        | some k' =>
+          rw [getP11Key_cons_hit _ _ _ _ _ _ _ _ k' hf] at h
+          simp only [Prod.mk.injEq, Except.ok.injEq, Option.some.injEq] at h
+          obtain ⟨rfl, rfl⟩ := h
+          obtain ⟨hm, hs, _⟩ := findInSlots_some _ _ _ _ _ _ _ _ _ hf
+          refine ⟨[], m, rest, s, rfl, rfl, hf, hm, hs, ?_, ?_⟩
+          · intro post'; exact getP11Key_cons_hit _ _ _ _ _ _ _ _ _ hf
+          · obtain ⟨l, hl, _, hp⟩ := (findInSlots_emits m label (classOf isPublic) hh m.sessions).run hf
+            exact ⟨l, hl, fun e he => ⟨m, by simp, hp e he⟩⟩
+        | none =>
+          rw [getP11Key_cons_miss _ _ _ _ _ _ _ _ hf] at h
+          obtain ⟨pre, m', post, s₁, he, hpre, hfound, hm, hs, hind, l, hl, hp⟩ := ih _ _ _ h
+          obtain ⟨l0, hl0, _, hp0⟩ := (findInSlots_emits m label (classOf isPublic) hh m.sessions).run hf
+          refine ⟨m :: pre, m', post, s₁, by rw [he]; rfl, ?_, hfound, hm, hs, ?_, l ++ l0, ?_, ?_⟩
+          · rw [getP11Key_cons_miss _ _ _ _ _ _ _ _ hf]; exact hpre
+          · intro post'
+            rw [List.cons_append, getP11Key_cons_miss _ _ _ _ _ _ _ _ hf]; exact hind post'
+          · rw [hl, hl0, List.append_assoc]
+          · intro e he
+            rcases List.mem_append.mp he with h1 | h1
+            · obtain ⟨x, hx, hr⟩ := hp e h1
+              exact ⟨x, List.mem_cons_of_mem _ hx, hr⟩
+            · exact ⟨m, by simp, hp0 e h1⟩
+
+/-! ## Exactly one private-key operation per signature, with the octets of `formatDataForSigning` -/
+
+/-- **`sign_using_p11` issues at most one token operation**; when it issues one it is
+    `C_Sign(module, slot, private handle, mechanism, octets)` with mechanism and octets exactly as
+    `_format_data_for_signing` produced them, and it returns `ok b` exactly when the token answered
+    that operation with the signature `b`.  Every token, every state. -/
+theorem sign_issues_exactly_one_op (hash : Hasher) (key : P11Key) (data : Bytes) (alg : Nat)
+    (tok : Token) (s : TokState) :
+    ((signUsingP11 hash key data alg tok s).2 = s ∧ ∀ b, (signUsingP11 hash key data alg tok s).1 ≠ .ok b) ∨
+    ∃ h d, key.privHandle = some h ∧ formatDataForSigning hash key data alg = .ok d ∧
+      key.keyType ≠ .aes ∧ key.keyType ≠ .des3 ∧
+      (signUsingP11 hash key data alg tok s).2 =
+        s.push (.sign key.module key.slot h d.mechanism d.data)
+          (tok s.count (.sign key.module key.slot h d.mechanism d.data)) ∧
+      ∀ b, (signUsingP11 hash key data alg tok s).1 = .ok b ↔
+        tok s.count (.sign key.module key.slot h d.mechanism d.data) = .sig b := by
+  unfold signUsingP11
+  cases hk : key.keyType
+  case aes => left; simp [bind_run]
+  case des3 => left; simp [bind_run]
+  all_goals
+    simp only [bind_run, TokM.lift_run]
+    cases hf : formatDataForSigning hash key data alg with
+    | error e => left; simp
+    | ok d =>
+      cases hp : key.privHandle with
+      | none => left; simp
+      | some h =>
+        right
+        refine ⟨h, d, rfl, rfl, by simp, by simp, ?_⟩
+        simp only [bind_run, askOk_run]
+        by_cases he : tok s.count (TokOp.sign key.module key.slot h d.mechanism d.data) = .error
+        · simp [he]
+        · simp only [if_neg he]
+          cases ha : tok s.count (TokOp.sign key.module key.slot h d.mechanism d.data) <;> simp_all
+
+/-! ## The derived public key is the token's key -/
+
+theorem beNat_fold_lt (b : Bytes) : ∀ acc : Nat,
+    b.foldl (fun acc x => acc * 256 + x.toNat) acc < (acc + 1) * 256 ^ b.length := by
+  induction b with
+  | nil => intro acc; simp
+  | cons x r ih =>
+    intro acc
+    simp only [List.foldl_cons, List.length_cons, Nat.pow_succ]
+    have h1 := ih (acc * 256 + x.toNat)
+    have hx := x.toNat_lt
+    have h2 : (acc * 256 + x.toNat + 1) * 256 ^ r.length ≤ ((acc + 1) * 256) * 256 ^ r.length :=
+      Nat.mul_le_mul_right _ (by omega)
+    calc _ < _ := h1
+      _ ≤ _ := h2
+      _ = _ := by rw [Nat.mul_assoc, Nat.mul_comm 256]
+
+theorem beNat_lt (b : Bytes) : beNat b < 256 ^ b.length := by
+  have := beNat_fold_lt b 0
+  simpa [beNat] using this
+
+theorem natToBytes_length_le (k : Nat) : ∀ e, e < 256 ^ k → (natToBytes e).length ≤ k := by
+  induction k with
+  | zero => intro e he; simp at he; subst he; rw [natToBytes]; simp
+  | succ k ih =>
+    intro e he
+    rw [natToBytes]
+    split
+    · simp
+    · rw [List.length_append, List.length_singleton]
+      have : e / 256 < 256 ^ k := by
+        rw [Nat.pow_succ] at he
+        exact Nat.div_lt_of_lt_mul (by rw [Nat.mul_comm]; exact he)
+      have := ih _ this
+      omega
+
+/-- the minimal re-encoding of an exponent is never longer than the octets the token gave -/
+theorem natToBytes_beNat_length (e : Bytes) : (natToBytes (beNat e)).length ≤ e.length :=
+  natToBytes_length_le _ _ (beNat_lt e)
+
+/-- **RSA: the key text derived from the token attributes decodes to the token's modulus and
+    exponent.**  For every token that answers KEY_TYPE ↦ RSA, MODULUS ↦ `n`, PUBLIC_EXPONENT ↦ `e`
+    for this object (at whatever operation index), with `int(e) ≥ 1` and `|e| < 65536`: the derived
+    text `txt` satisfies, for every RSA algorithm number, `decode txt = (8·|n| bits, int(e), n)`. -/
+theorem derived_key_is_token_key_rsa (tok : Token) (path : String) (slot h : Nat) (n e : Bytes)
+    (hkt : ∀ i, tok i (.getAttr path slot h ["KEY_TYPE"]) = .attrs [.num ckkRsa])
+    (hn : ∀ i, tok i (.getAttr path slot h ["MODULUS"]) = .attrs [.bytes n])
+    (he : ∀ i, tok i (.getAttr path slot h ["PUBLIC_EXPONENT"]) = .attrs [.bytes e])
+    (hpos : 1 ≤ beNat e) (hlen : e.length < 65536) (s : TokState) :
+    ∃ txt s', p11ObjectToPublicKey path slot h tok s = (.ok (some txt), s') ∧
+      (∀ alg, isAlgorithmRsa alg = true →
+        rsaDecode txt alg = .ok { bits := 8 * n.length, exponent := beNat e, n := n }) ∧
+      s'.log = [(.getAttr path slot h ["PUBLIC_EXPONENT"], .attrs [.bytes e]),
+                (.getAttr path slot h ["MODULUS"], .attrs [.bytes n]),
+                (.getAttr path slot h ["KEY_TYPE"], .attrs [.num ckkRsa])] ++ s.log := by
+  rw [p11ObjectToPublicKey_rsa_run tok path slot h n e hkt hn he s]
+  have hl := natToBytes_beNat_length e
+  cases henc : rsaEncodeBytes (beNat e) n with
+  | error f =>
+    unfold rsaEncodeBytes at henc
+    simp only at henc
+    split at henc
+    · split at henc
+      · simp [pure, Except.pure] at henc
+      · omega
+    · simp [pure, Except.pure] at henc
+  | ok b =>
+    have hdec := C14.rsa_decode_encode (beNat e) n b (by omega) henc
+    refine ⟨Base64.encode b, ((s.push (.getAttr path slot h ["KEY_TYPE"]) (.attrs [.num ckkRsa])).push
+          (.getAttr path slot h ["MODULUS"]) (.attrs [.bytes n])).push
+          (.getAttr path slot h ["PUBLIC_EXPONENT"]) (.attrs [.bytes e]), ?_, ?_, ?_⟩
+    · simp [rsaEncode, henc, bind, Except.bind, pure, Except.pure, Except.map]
+    · intro alg halg
+      simp [rsaDecode, Base64.decode_encode, hdec, bind, Except.bind, halg, pure, Except.pure,
+        Nat.mul_comm]
+    · rfl
+
+/-- the state after the three attribute reads of the EC branch -/
+def afterEcReads (path : String) (slot h : Nat) (point params : Bytes) (s : TokState) : TokState :=
+  ((s.push (.getAttr path slot h ["KEY_TYPE"]) (.attrs [.num ckkEc])).push
+    (.getAttr path slot h ["EC_POINT"]) (.attrs [.bytes point])).push
+    (.getAttr path slot h ["EC_PARAMS"]) (.attrs [.bytes params])
+
+/-- hypotheses "the token answers KEY_TYPE ↦ EC, EC_POINT ↦ point, EC_PARAMS ↦ params for this
+    object", at whatever operation index -/
+structure EcAnswers (tok : Token) (path : String) (slot h : Nat) (point params : Bytes) : Prop where
+  keyType : ∀ i, tok i (.getAttr path slot h ["KEY_TYPE"]) = .attrs [.num ckkEc]
+  point : ∀ i, tok i (.getAttr path slot h ["EC_POINT"]) = .attrs [.bytes point]
+  params : ∀ i, tok i (.getAttr path slot h ["EC_PARAMS"]) = .attrs [.bytes params]
+
+theorem ec_run (tok : Token) (path : String) (slot h : Nat) (point params : Bytes)
+    (ha : EcAnswers tok path slot h point params) (hlen : 2 ≤ point.length ∧ point.length < 258)
+    (s : TokState) :
+    p11ObjectToPublicKey path slot h tok s =
+      (ecDerive point params, afterEcReads path slot h point params s) := by
+  cases point with
+  | nil => simp at hlen
+  | cons a r => exact p11ObjectToPublicKey_ec_run tok path slot h a r params ha.keyType ha.point ha.params hlen s
+
+/-- the size the code expects for the curve named by the EC_PARAMS OID: 65 / 97 octets
+    (`0x04 ‖ x ‖ y`) -/
+def ecPointOctets (params : Bytes) : Option Nat :=
+  if params = ecOidP256 then some 65 else if params = ecOidP384 then some 97 else none
+
+theorem ecDerive_of_length (point params : Bytes) (k : Nat) (hk : ecPointOctets params = some k)
+    (hl : (ecUnwrap point).length = k) :
+    ecDerive point params = .ok (some (Base64.encode (ecUnwrap point))) := by
+  unfold ecPointOctets at hk
+  unfold ecDerive
+  split at hk
+  · rename_i h1
+    simp only [Option.some.injEq] at hk
+    simp only [h1, ↓reduceIte, hl, ← hk]
+    rfl
+  · split at hk
+    · rename_i h1 h2
+      simp only [Option.some.injEq] at hk
+      simp only [h2, ↓reduceIte, hl, ← hk]
+      rfl
+    · simp at hk
+
+/-- **EC, point wrapped in a DER OCTET STRING** (`04 len 04 x y`, as SoftHSM2 answers): for P-256 /
+    P-384 with `x‖y` of 64 / 96 octets, the derived key text is the base64 of `04 ‖ x ‖ y`
+    (65 / 97 octets).  NOTE: the `0x04` octet is KEPT — this is what /repo does (DESIGN §5, F4). -/
+theorem derived_key_ec_wrapped (tok : Token) (path : String) (slot h : Nat) (xy params : Bytes) (k : Nat)
+    (hk : ecPointOctets params = some k) (hxy : xy.length + 1 = k)
+    (ha : EcAnswers tok path slot h (4 :: UInt8.ofNat k :: 4 :: xy) params) (s : TokState) :
+    p11ObjectToPublicKey path slot h tok s =
+      (.ok (some (Base64.encode (4 :: xy))),
+        afterEcReads path slot h (4 :: UInt8.ofNat k :: 4 :: xy) params s) ∧
+    (4 :: xy).length = k ∧ (k = 65 ∨ k = 97) := by
+  have hk' : k = 65 ∨ k = 97 := by
+    unfold ecPointOctets at hk
+    split at hk
+    · left; simpa using hk.symm
+    · split at hk
+      · right; simpa using hk.symm
+      · simp at hk
+  have hun : ecUnwrap (4 :: UInt8.ofNat k :: 4 :: xy) = 4 :: xy := by
+    unfold ecUnwrap
+    have : (4 :: UInt8.ofNat k :: 4 :: xy).length - 2 = k := by simp; omega
+    rw [this]
+    simp
+  refine ⟨?_, by simp; omega, hk'⟩
+  rw [ec_run tok path slot h _ params ha (by simp; omega) s,
+    ecDerive_of_length _ params k hk (by rw [hun]; simp; omega), hun]
+
+/-- **EC, bare point** (`04 x y` of 65 / 97 octets, not of the wrapped form): the derived key text is
+    the base64 of the point as the token gave it, first octet included.  (The code does not look at
+    the first octet of a bare point; and a bare point whose 2nd and 3rd octets happen to be
+    `len−2, 04` is mistaken for a wrapped one — excluded here by `hbare`, rejected by
+    `derived_key_ec_wrong_length`.) -/
+theorem derived_key_ec_bare (tok : Token) (path : String) (slot h : Nat) (point params : Bytes) (k : Nat)
+    (hk : ecPointOctets params = some k) (hl : point.length = k)
+    (hbare : point.take 3 ≠ [4, UInt8.ofNat (point.length - 2), 4])
+    (ha : EcAnswers tok path slot h point params) (s : TokState) :
+    p11ObjectToPublicKey path slot h tok s =
+      (.ok (some (Base64.encode point)), afterEcReads path slot h point params s) := by
+  have hk' : k = 65 ∨ k = 97 := by
+    unfold ecPointOctets at hk
+    split at hk
+    · left; simpa using hk.symm
+    · split at hk
+      · right; simpa using hk.symm
+      · simp at hk
+  have hun : ecUnwrap point = point := by unfold ecUnwrap; rw [if_neg hbare]
+  rw [ec_run tok path slot h _ params ha (by omega) s,
+    ecDerive_of_length _ params k hk (by rw [hun]; exact hl), hun]
+
+/-- **EC, unknown curve OID ⇒ runtime error** (no key text is made up). -/
+theorem derived_key_ec_unknown_curve (tok : Token) (path : String) (slot h : Nat) (point params : Bytes)
+    (hk : ecPointOctets params = none) (hlen : 2 ≤ point.length ∧ point.length < 258)
+    (ha : EcAnswers tok path slot h point params) (s : TokState) :
+    p11ObjectToPublicKey path slot h tok s =
+      (.error (.error .runtime), afterEcReads path slot h point params s) := by
+  rw [ec_run tok path slot h _ params ha hlen s]
+  unfold ecPointOctets at hk
+  unfold ecDerive
+  split at hk
+  · simp at hk
+  · split at hk
+    · simp at hk
+    · rename_i h1 h2
+      simp only [h1, h2, ↓reduceIte]; rfl
+
+/-- **EC, wrong length for the curve ⇒ runtime error**: after removal of a DER header if present,
+    anything but 65 (P-256) / 97 (P-384) octets is refused. -/
+theorem derived_key_ec_wrong_length (tok : Token) (path : String) (slot h : Nat) (point params : Bytes)
+    (k : Nat) (hk : ecPointOctets params = some k) (hl : (ecUnwrap point).length ≠ k)
+    (hlen : 2 ≤ point.length ∧ point.length < 258)
+    (ha : EcAnswers tok path slot h point params) (s : TokState) :
+    p11ObjectToPublicKey path slot h tok s =
+      (.error (.error .runtime), afterEcReads path slot h point params s) := by
+  rw [ec_run tok path slot h _ params ha hlen s]
+  unfold ecPointOctets at hk
+  unfold ecDerive
+  split at hk
+  · rename_i h1
+    simp only [Option.some.injEq] at hk
+    have : ((ecUnwrap point).length - 1) * 8 / 2 ≠ 256 := by omega
+    rw [if_pos h1, if_pos this]; rfl
+  · split at hk
+    · rename_i h1 h2
+      simp only [Option.some.injEq] at hk
+      have : ((ecUnwrap point).length - 1) * 8 / 2 ≠ 384 := by omega
+      rw [if_neg h1, if_pos h2, if_pos this]; rfl
+    · simp at hk
+
+/-- **EC, absent point ⇒ no public key** (`ok none`; the caller then looks for the public object),
+    and the curve parameters are not even read. -/
+theorem derived_key_ec_absent (tok : Token) (path : String) (slot h : Nat) (pt : AttrAns)
+    (hkt : ∀ i, tok i (.getAttr path slot h ["KEY_TYPE"]) = .attrs [.num ckkEc])
+    (hpt : ∀ i, tok i (.getAttr path slot h ["EC_POINT"]) = .attrs [pt])
+    (habs : pt = .none ∨ pt = .bytes []) (s : TokState) :
+    p11ObjectToPublicKey path slot h tok s =
+      (.ok none, (s.push (.getAttr path slot h ["KEY_TYPE"]) (.attrs [.num ckkEc])).push
+          (.getAttr path slot h ["EC_POINT"]) (.attrs [pt])) :=
+  p11ObjectToPublicKey_ec_absent tok path slot h pt hkt hpt habs s
+
+/-- **(b), fully evaluated for an RSA object with all attributes present** (public or private
+    class): the key record returned names module, slot and handle of that object and carries a
+    public key text that decodes — for every RSA algorithm — to the object's modulus and exponent. -/
+theorem find_first_rsa (st : Store) (ok : String → Nat → Bool) (m : P11Module) (label : String)
+    (cls : Nat) (hh : Option Bool) (pre post : List Nat) (s₀ : Nat) (o : StoreObj) (n e : Bytes)
+    (hpre : ∀ sl ∈ pre, matching st m label cls sl = [])
+    (hone : matching st m label cls s₀ = [o])
+    (hfind : (st m.path s₀).find? (·.handle == o.handle) = some o)
+    (hkt : o.keyType = some ckkRsa) (hn : o.modulus = some n) (he : o.publicExponent = some e)
+    (hcls : cls ≠ ckoSecret) (hpos : 1 ≤ beNat e) (hlen : e.length < 65536) (s : TokState) :
+    ∃ txt s', findInSlots m label cls hh (pre ++ s₀ :: post) (storeToken st ok) s =
+        (.ok (some { label, keyType := .rsa, keyClass := cls, hashUsingHsm := hh,
+                     publicKey := some txt, module := m.path, slot := s₀,
+                     privHandle := if cls ≠ ckoPublic then some o.handle else none,
+                     pubHandle := if cls ≠ ckoSecret then some o.handle else none }), s') ∧
+      ∀ alg, isAlgorithmRsa alg = true →
+        rsaDecode txt alg = .ok { bits := 8 * n.length, exponent := beNat e, n := n } := by
+  have hkt' : ∀ i, storeToken st ok i (.getAttr m.path s₀ o.handle ["KEY_TYPE"]) = .attrs [.num ckkRsa] := by
+    intro i; rw [storeToken_getAttr1 st ok i m.path s₀ _ o hfind, o.attr_keyType _ hkt]
+  have hn' : ∀ i, storeToken st ok i (.getAttr m.path s₀ o.handle ["MODULUS"]) = .attrs [.bytes n] := by
+    intro i; rw [storeToken_getAttr1 st ok i m.path s₀ _ o hfind, o.attr_modulus, hn]; rfl
+  have he' : ∀ i, storeToken st ok i (.getAttr m.path s₀ o.handle ["PUBLIC_EXPONENT"]) = .attrs [.bytes e] := by
+    intro i; rw [storeToken_getAttr1 st ok i m.path s₀ _ o hfind, o.attr_publicExponent, he]; rfl
+  obtain ⟨txt, s1, hrun, hdec, _⟩ := derived_key_is_token_key_rsa (storeToken st ok) m.path s₀ o.handle n e
+    hkt' hn' he' hpos hlen
+    ((afterEmpty m label cls pre s).push (findOp m label cls s₀) (.handles [o.handle]))
+  refine ⟨txt, s1.push (.getAttr m.path s₀ o.handle ["KEY_TYPE"]) (.attrs [.num ckkRsa]), ?_, hdec⟩
+  rw [find_first st ok m label cls hh pre post s₀ o hpre hone]
+  unfold foundKey
+  rw [if_pos hcls, bind_run_ok _ _ _ _ _ _ hrun,
+    foundKeyTail_run m label cls hh s₀ o.handle (some txt) _ s1 ckkRsa .rsa (hkt' _) rfl]
+
+/-! ## `get_p11_key` on a healthy token -/
+
+/-- modules none of whose session slots holds a matching object are passed over (one
+    `findObjects` per session slot), then the search continues -/
+theorem getP11Key_skip_modules (st : Store) (ok : String → Nat → Bool) (label : String)
+    (isPublic : Bool) (hh : Option Bool) (pre rest : List P11Module)
+    (hpre : ∀ m ∈ pre, ∀ sl ∈ m.sessions, matching st m label (classOf isPublic) sl = [])
+    (s : TokState) :
+    ∃ s₁, getP11Key label isPublic hh (pre ++ rest) (storeToken st ok) s =
+        getP11Key label isPublic hh rest (storeToken st ok) s₁ ∧ LogExtends s s₁ := by
+  induction pre generalizing s with
+  | nil => exact ⟨s, rfl, LogExtends.refl s⟩
+  | cons m pre ih =>
+    have hm := find_none st ok m label (classOf isPublic) hh m.sessions (hpre m List.mem_cons_self) s
+    obtain ⟨s₁, h1, h2⟩ := ih (fun x hx => hpre x (List.mem_cons_of_mem _ hx))
+      (afterEmpty m label (classOf isPublic) m.sessions s)
+    refine ⟨s₁, ?_, LogExtends.trans ⟨_, rfl⟩ h2⟩
+    rw [List.cons_append, getP11Key_cons_miss _ _ _ _ _ _ _ _ hm, h1]
+
+/-- no module holds the label ⇒ "not found" -/
+theorem getP11Key_store_none (st : Store) (ok : String → Nat → Bool) (label : String)
+    (isPublic : Bool) (hh : Option Bool) (mods : List P11Module)
+    (hall : ∀ m ∈ mods, ∀ sl ∈ m.sessions, matching st m label (classOf isPublic) sl = [])
+    (s : TokState) :
+    ∃ s', getP11Key label isPublic hh mods (storeToken st ok) s = (.ok none, s') := by
+  obtain ⟨s₁, h, _⟩ := getP11Key_skip_modules st ok label isPublic hh mods [] hall s
+  rw [List.append_nil] at h
+  exact ⟨s₁, by rw [h]; rfl⟩
+
+/-- **two objects under one label in a slot stop `get_p11_key`** with the runtime error, even when a
+    later slot or a later module holds exactly one such object -/
+theorem getP11Key_duplicate (st : Store) (ok : String → Nat → Bool) (label : String)
+    (isPublic : Bool) (hh : Option Bool) (pre post : List P11Module) (m : P11Module)
+    (spre spost : List Nat) (s₀ : Nat)
+    (hpre : ∀ m' ∈ pre, ∀ sl ∈ m'.sessions, matching st m' label (classOf isPublic) sl = [])
+    (hm : m.sessions = spre ++ s₀ :: spost)
+    (hspre : ∀ sl ∈ spre, matching st m label (classOf isPublic) sl = [])
+    (htwo : 2 ≤ (matching st m label (classOf isPublic) s₀).length) (s : TokState) :
+    ∃ s', getP11Key label isPublic hh (pre ++ m :: post) (storeToken st ok) s =
+      (.error (.error .runtime), s') := by
+  obtain ⟨s₁, h, _⟩ := getP11Key_skip_modules st ok label isPublic hh pre (m :: post) hpre s
+  obtain ⟨s', h'⟩ := two_objects_error st ok m label (classOf isPublic) hh spre spost s₀ hspre htwo s₁
+  rw [← hm] at h'
+  exact ⟨s', by rw [h, getP11Key_cons_error _ _ _ _ _ _ _ _ _ h']⟩
+
+/-! ## The signing operation carries the documented octets (ties to Part 1) -/
+
+/-- a successful `sign_using_p11` logged exactly one operation, the `C_Sign` below -/
+theorem sign_ok_log (hash : Hasher) (key : P11Key) (data : Bytes) (alg : Nat) (tok : Token)
+    (s s' : TokState) (b : Bytes) (h : signUsingP11 hash key data alg tok s = (.ok b, s')) :
+    ∃ hnd d, key.privHandle = some hnd ∧ formatDataForSigning hash key data alg = .ok d ∧
+      s'.log = (.sign key.module key.slot hnd d.mechanism d.data, .sig b) :: s.log ∧
+      s'.count = s.count + 1 := by
+  rcases sign_issues_exactly_one_op hash key data alg tok s with ⟨_, hne⟩ | ⟨hnd, d, hp, hf, _, _, hs, hb⟩
+  · rw [h] at hne; exact absurd rfl (hne b)
+  · rw [h] at hs hb
+    have := (hb b).mp rfl
+    simp only at hs
+    refine ⟨hnd, d, hp, hf, ?_, ?_⟩
+    · rw [hs, this]; rfl
+    · rw [hs]; rfl
+
+/-- raw RSA (algorithms 8, 10; hashing on the host): what the token signed is the
+    full-modulus-length EMSA-PKCS1-v1_5 block of the matching digest, under `CKM_RSA_X_509` -/
+theorem signed_octets_raw_rsa (hash : Hasher) (key : P11Key) (data : Bytes) (alg : Nat) (tok : Token)
+    (s s' : TokState) (b : Bytes) (hk : key.hashUsingHsm ≠ some true) (ha : alg = 8 ∨ alg = 10)
+    (h : signUsingP11 hash key data alg tok s = (.ok b, s')) :
+    ∃ hnd pk pub digest, key.privHandle = some hnd ∧ key.publicKey = some pk ∧
+      rsaDecode pk alg = .ok pub ∧ hash (if alg = 8 then .sha256 else .sha512) data = some digest ∧
+      s'.log = (.sign key.module key.slot hnd ckmRsaX509
+        (emsaBlock (pub.bits / 8) ((if alg = 8 then digestInfoSha256 else digestInfoSha512) ++ digest)),
+        .sig b) :: s.log := by
+  obtain ⟨hnd, d, hp, hf, hl, _⟩ := sign_ok_log hash key data alg tok s s' b h
+  obtain ⟨pk, pub, digest, h1, h2, h3, h4, h5⟩ := raw_rsa_is_emsa hash key data alg d hk ha hf
+  exact ⟨hnd, pk, pub, digest, hp, h1, h2, h3, by rw [hl, h4, h5]⟩
+
+/-- raw ECDSA (13, 14): what the token signed is the matching digest, under `CKM_ECDSA` -/
+theorem signed_octets_raw_ecdsa (hash : Hasher) (key : P11Key) (data : Bytes) (alg : Nat) (tok : Token)
+    (s s' : TokState) (b : Bytes) (hk : key.hashUsingHsm ≠ some true) (ha : alg = 13 ∨ alg = 14)
+    (h : signUsingP11 hash key data alg tok s = (.ok b, s')) :
+    ∃ hnd digest, key.privHandle = some hnd ∧
+      hash (if alg = 13 then .sha256 else .sha384) data = some digest ∧
+      s'.log = (.sign key.module key.slot hnd ckmEcdsa digest, .sig b) :: s.log := by
+  obtain ⟨hnd, d, hp, hf, hl, _⟩ := sign_ok_log hash key data alg tok s s' b h
+  obtain ⟨h1, h2⟩ := raw_ecdsa_is_digest hash key data alg d hk ha hf
+  exact ⟨hnd, d.data, hp, h2, by rw [hl, h1]⟩
+
+/-- hash on token: the data go to the token untouched, under the mechanism matching the algorithm -/
+theorem signed_octets_hash_on_token (hash : Hasher) (key : P11Key) (data : Bytes) (alg : Nat)
+    (tok : Token) (s s' : TokState) (b : Bytes) (hk : key.hashUsingHsm = some true)
+    (ha : alg ∈ [5, 8, 10, 13, 14]) (h : signUsingP11 hash key data alg tok s = (.ok b, s')) :
+    ∃ hnd mech, key.privHandle = some hnd ∧ mechanismFor true alg = some mech ∧
+      s'.log = (.sign key.module key.slot hnd mech data, .sig b) :: s.log := by
+  obtain ⟨hnd, d, hp, hf, hl, _⟩ := sign_ok_log hash key data alg tok s s' b h
+  obtain ⟨h1, h2, _⟩ := hash_on_token_untouched hash key data alg d hk ha hf
+  exact ⟨hnd, d.mechanism, hp, h2.symm, by rw [hl, h1]⟩
+
+/-! ## Non-vacuity (Part 2): a concrete healthy token with one RSA key in the second slot -/
+
+def exObj : StoreObj :=
+  { handle := 7, cls := ckoPublic, label := "K", keyType := some ckkRsa,
+    modulus := some [0x80, 1], publicExponent := some [1, 0, 1] }
+def exStore : Store := fun p sl => if p = "mod" ∧ sl = 1 then [exObj] else []
+def exMod : P11Module := { label := "hsm", path := "mod", slots := [0, 1, 2], sessions := [0, 1, 2] }
+def exTok : Token := storeToken exStore (fun _ _ => true)
+
+-- hypotheses of `find_first` / `find_first_rsa` (pre = [0], s₀ = 1, post = [2])
+example : (∀ sl ∈ [0], matching exStore exMod "K" ckoPublic sl = []) ∧
+    matching exStore exMod "K" ckoPublic 1 = [exObj] ∧
+    (exStore exMod.path 1).find? (·.handle == exObj.handle) = some exObj ∧
+    1 ≤ beNat [1, 0, 1] := by decide
+-- … and the model's verdict on it: found in slot 1 with handle 7; slot 2 never queried
+example : (findInSlots exMod "K" ckoPublic none [0, 1, 2] exTok {}).1 =
+    .ok (some { label := "K", keyType := .rsa, keyClass := ckoPublic, publicKey := some "AwEAAYAB",
+                module := "mod", slot := 1, pubHandle := some 7 }) := by decide +kernel
+example : ((findInSlots exMod "K" ckoPublic none [0, 1, 2] exTok {}).2.log.filter
+      (fun e => match e.1 with | .findObjects .. => true | _ => false)).map (·.1) =
+    [findOp exMod "K" ckoPublic 1, findOp exMod "K" ckoPublic 0] := by decide +kernel
+example : rsaDecode "AwEAAYAB" 8 = .ok { bits := 16, exponent := 65537, n := [0x80, 1] } := by
+  decide +kernel
+-- two objects under the label in slot 1: runtime error although slot 2 holds exactly one
+example : (findInSlots exMod "K" ckoPublic none [0, 1, 2]
+    (storeToken (fun _ sl => if sl = 1 then [exObj, { exObj with handle := 8 }]
+                             else if sl = 2 then [exObj] else []) (fun _ _ => true)) {}).1 =
+    .error (.error .runtime) := by decide +kernel
+-- a slot that refuses login is dropped (hypothesis `Nodup` of `sessions_drop_failed` holds)
+example : [0, 1, 2].Nodup ∧
+    (openSessions exMod [0, 1, 2] { exMod with sessions := [] }
+      (storeToken exStore (fun _ s => s != 1)) {}).1 =
+    .ok { exMod with slots := [0, 2], sessions := [0, 2] } := by decide +kernel
+-- EC answers: a wrapped P-256 point meets the hypotheses of `derived_key_ec_wrapped`
+example : ecPointOctets ecOidP256 = some 65 ∧ (List.replicate 64 (7 : UInt8)).length + 1 = 65 := by
+  decide
 
 end Kskm.C15
